@@ -1,6 +1,7 @@
 open BinInt
 open BinNums
 open Bytes0
+open Consts
 open Datatypes
 open List0
 open PeanoNat
@@ -27,12 +28,12 @@ let md5_verdict h deq w written = function
    | LMd5 d -> if deq d (h w) then Accept written else Reject
    | _ -> Reject)
 
-(** val recv_v2 :
+(** val recv_v2_sched :
     (byte list -> 'a1) -> ('a1 -> 'a1 -> bool) -> (byte list list -> byte
     list option) -> nat option -> coq_Z -> byte list list -> 'a1 line list ->
     verdict **)
 
-let rec recv_v2 h deq decode early size acc = function
+let rec recv_v2_sched h deq decode early size acc = function
 | [] -> Waiting
 | l :: rest ->
   (match l with
@@ -54,9 +55,18 @@ let rec recv_v2 h deq decode early size acc = function
                    else Reject
                  | None -> Reject)
          | None -> Reject)
-      | _ :: _ -> recv_v2 h deq decode early size (app acc (f :: [])) rest)
-   | LKeep -> recv_v2 h deq decode early size acc rest
+      | _ :: _ ->
+        recv_v2_sched h deq decode early size (app acc (f :: [])) rest)
+   | LKeep -> recv_v2_sched h deq decode early size acc rest
    | _ -> Reject)
+
+(** val recv_v2 :
+    (byte list -> 'a1) -> ('a1 -> 'a1 -> bool) -> (byte list list -> byte
+    list option) -> nat option -> coq_Z -> byte list list -> 'a1 line list ->
+    verdict **)
+
+let recv_v2 h deq decode early =
+  recv_v2_sched h deq decode (if c02_succ_waits_saver then None else early)
 
 (** val recv_v1 :
     (byte list -> 'a1) -> ('a1 -> 'a1 -> bool) -> (byte list -> byte list
